@@ -243,6 +243,9 @@ async fn recv_impl<T, Codec>(
     let mut remote_rx = base::Receiver::<Result<T, RecvError>, Codec>::new(raw_rx);
     remote_rx.set_max_item_size(max_item_size);
 
+    // Value received from the remote endpoint that waits for space in the local queue.
+    let mut pending = None;
+
     // Process events.
     loop {
         tokio::select! {
@@ -275,8 +278,19 @@ async fn recv_impl<T, Codec>(
                 }
             }
 
+            // Space for the received value has become available in the local queue.
+            // Waiting for it must not keep the notifications above from being sent.
+            permit = tx.reserve(), if pending.is_some() => {
+                let Ok(permit) = permit else { break };
+                let (value, is_final_err) = pending.take().unwrap();
+                permit.send(SendReq::new(value));
+                if is_final_err {
+                    break;
+                }
+            }
+
             // Data received from remote endpoint.
-            res = remote_rx.recv() => {
+            res = remote_rx.recv(), if pending.is_none() => {
                 let mut is_final_err = false;
                 let value = match res {
                     Ok(Some(value)) => value,
@@ -286,12 +300,7 @@ async fn recv_impl<T, Codec>(
                         Err(RecvError::RemoteReceive(err))
                     },
                 };
-                if tx.send(SendReq::new(value)).await.is_err() {
-                    break;
-                }
-                if is_final_err {
-                    break;
-                }
+                pending = Some((value, is_final_err));
             }
         }
     }
